@@ -393,6 +393,26 @@ class Ctx:
             pass
 
 
+def run_steps(ctx, ev, st, steps, label, node):
+    """auto-active proof steps: each is an obligation proved from the facts so far and then assumed.  {"induct": (var, lo, hi, P)}
+    is induction over the integers lo <= var < hi on the predicate P (written with '@' for the variable): base and step are
+    obligations, the quantified conclusion is assumed (the induction rule is the meta-argument)."""
+    for h in steps:
+        if isinstance(h, dict) and "induct" in h:
+            var, lo, hi, pred = h["induct"]
+            base = "implies(%s < %s, %s)" % (lo, hi, pred.replace("@", "(%s)" % lo))
+            step = "forall(%s, (%s) - 1, lambda %s: implies(%s, %s))" % (lo, hi, var, pred.replace("@", var), pred.replace("@", "(%s + 1)" % var))
+            concl = "forall(%s, %s, lambda %s: %s)" % (lo, hi, var, pred.replace("@", var))
+            for nm, txt in (("induction base", base), ("induction step", step)):
+                g = ev.spec_bool(txt, st)
+                ctx.oblig("%s %s: %s" % (label, nm, txt), st, g, node, txt)
+            st.pc.append(ev.spec_bool(concl, st))
+            continue
+        g = ev.spec_bool(h, st)
+        ctx.oblig("%s step: %s" % (label, h), st, g, node, h)
+        st.pc.append(g)
+
+
 class LemmaCtx(Ctx):
     """a lemma over contracts: fresh variables, hypotheses and a goal in the specification language (no code)"""
 
@@ -417,22 +437,7 @@ class LemmaCtx(Ctx):
         s.set("timeout", 5000)
         s.add(*st.pc)
         self.requires_sat = str(s.check())
-        for h in self.lemma.get("steps", []):
-            if isinstance(h, dict) and "induct" in h:
-                # induction over the integers lo <= i < hi on the predicate P(i): base and step are obligations, the
-                # universally quantified conclusion is then assumed (the induction rule itself is the meta-argument)
-                var, lo, hi, pred = h["induct"]
-                base = "implies(%s < %s, %s)" % (lo, hi, pred.replace("@", "(%s)" % lo))
-                step = "forall(%s, (%s) - 1, lambda %s: implies(%s, %s))" % (lo, hi, var, pred.replace("@", var), pred.replace("@", "(%s + 1)" % var))
-                concl = "forall(%s, %s, lambda %s: %s)" % (lo, hi, var, pred.replace("@", var))
-                for nm, txt in (("induction base", base), ("induction step", step)):
-                    g = ev.spec_bool(txt, st)
-                    self.oblig("lemma %s: %s" % (nm, txt), st, g, None, txt)
-                st.pc.append(ev.spec_bool(concl, st))
-                continue
-            g = ev.spec_bool(h, st)
-            self.oblig("lemma step: %s" % h, st, g, None, h)
-            st.pc.append(g)
+        run_steps(self, ev, st, self.lemma.get("steps", []), "lemma", None)
         for g in self.lemma["goal"] if isinstance(self.lemma["goal"], list) else [self.lemma["goal"]]:
             self.oblig("lemma: %s" % g, st, ev.spec_bool(g, st), None, g)
 
@@ -1788,6 +1793,15 @@ class Exec:
             if declared is not None:
                 v = self.conform(v, declared, st)
             st.env[target.id] = v
+            after = self.ctx.contract.get("after", {}).get(target.id) if self.loops is self.ctx.contract.get("loops", {}) else None
+            if after and isinstance(node, ast.Assign):
+                # proof steps attached to "right after this variable is assigned" (skipped on paths where a step mentions
+                # names that do not exist there)
+                try:
+                    run_steps(self.ctx, self.sev, st, after, "after %s =" % target.id, node)
+                except Unsupported as e:
+                    if "unresolved name" not in str(e):
+                        raise
             return
         if isinstance(target, (ast.Tuple, ast.List)):
             items = self.unpack(v, len(target.elts), st, node, target)
